@@ -443,6 +443,11 @@ import rs2v_broker  # noqa: E402
 
 GENERATORS["BrokerConsts.v"] = lambda: rs2v_broker.gen_broker_consts(read, strip_comments, match_brace, const_int, TieError)
 
+# ---------------------------------------------------------------- C12: handshake constants (tools/rs2v_accept.py)
+import rs2v_accept  # noqa: E402
+
+GENERATORS["AcceptConsts.v"] = lambda: rs2v_accept.gen_accept_consts(read, strip_comments, match_brace, protocol_versions, TieError)
+
 
 # ---------------------------------------------------------------- C18/C17: schema grammar tokens (tools/rs2v_schema.py)
 
